@@ -380,7 +380,7 @@ def robust_cases(ctx):
             cand = [z + r * np.exp(1j * t) for r in (1e-6, 1e-3, 1e-1, 1.0) for t in np.linspace(0, 2 * np.pi, 12, endpoint=False)] + list(d) + [d.mean()]
             best = min(f(w_) for w_ in cand)
             if not np.isfinite(z) or f(z) > best + 1e-6 * (np.abs(d).max() + 1e-12) * len(d):
-                deg = degenerate(d) if is_median else "n/a"
+                deg = degenerate(d) if is_median else ("fixed_point_iteration_needs_more_than_600_steps" if irls_slow(d, agg[1]) else "n/a")
                 if is_median and deg == "none" and np.isfinite(z) and np.abs(z - d).min() <= 1e-8 * (np.abs(d).max() + 1e-300):
                     deg = "returned_value_is_a_sample"  # the Newton iterate got trapped on a delayed sample that is not the median
                 ctx.violate(f"{kind}: value {z!r} is not the minimiser of its objective over the delayed samples {d.tolist()} (f={f(z)}, better {best})", cj,
